@@ -54,6 +54,10 @@ def impl_call(case):
         fresh_desc['z'] = final_z
         fresh_desc['ztype'] = final_t
         rest_desc = {k: v for k, v in case['prim'].items() if k not in ('z', 'ztype')}
+    elif 'wrapz' in case['prim']:
+        # SourceSpectrum(already redshifted spectrum, z=…): its rest frame is the inner spectrum as it stands
+        fresh_desc = {'wrapz': {'z': final_z, 'ztype': final_t}, 'e': case['prim']['e']}
+        rest_desc = case['prim']['e']
     else:
         # a composite has no constructor taking z: "fresh" is the rebuilt expression with the final values assigned once
         fresh_desc = {'setz': {'z': final_z, 'ztype': final_t}, 'e': case['prim']}
@@ -89,7 +93,7 @@ def compare(case, o, m):
         if st['do'] == 'waveset' and 'ok' in a and a['ok'] is not None and 'ok' in b and b['ok'] is not None:
             if len(a['ok']) != len(b['ok']):
                 return 'step %d: waveset lengths %d vs %d' % (i, len(a['ok']), len(b['ok']))
-        if b.get('err') == 'NaN' and 'op' in case['prim']:
+        if b.get('err') == 'NaN' and ('op' in case['prim']):
             continue        # a composite dividing by zero at a sampled wavelength: the model refuses, NumPy gives inf / nan / 0
         scale = 0.0
         if 'ok' in a and isinstance(a['ok'], list):
@@ -178,6 +182,12 @@ def gen_case(rng, K, maxlen):
             if 'op' in e and c02.static_kind(e) == 'source' and not set(leaves) & {'box', 'trapezoid'}:
                 prim, z0, t0, zs = e, F(0), 'wavelength_only', ZS
                 break
+    if 'prim' in prim and rng.random() < 0.2:
+        # an already redshifted spectrum object handed to the constructor with a further redshift
+        inner = dict(prim)
+        inner['z'] = q(rng.choice([z for z in zs if z != 0]))
+        inner['ztype'] = rng.choice(['wavelength_only', 'conserve_flux'])
+        prim = {'wrapz': {'z': q(z0), 'ztype': t0}, 'e': inner}
     O.fill_ss(prim)
     xs = qs(O.sample_grid(rng, 6, 300, 60000))
     steps = []
@@ -212,14 +222,14 @@ def run(rep):
         c['const'] = K
     cases += [gen_case(rng, K, 40 if thorough else 8) for _ in range(30000 if thorough else 1500)]
     rep.rule = ('random histories of z / z_type assignments (incl. non-real z and unknown z_type), samples, waveset and integrate '
-                'queries (<= 8 steps quick, <= 40 thorough) on SourceSpectrum objects of every leaf kind and (25%) composite sources whose operands may already be redshifted, constructed with or '
+                'queries (<= 8 steps quick, <= 40 thorough) on SourceSpectrum objects of every leaf kind and (25%) composite sources whose operands may already be redshifted, and (15%) sources constructed from an already redshifted spectrum object, constructed with or '
                 'without redshift; z from {0, 1/8, 1/2, 1, 3, 7, 20, -1/4, -1/2, -7/8}. Non-trivial: at least one assignment step.')
 
     def nontrivial(c, o):
         return any(s['do'].startswith('set_') for s in c['steps'])
 
     def tags(c, o):
-        t = ['final_ztype:' + c['final'][1], 'len:%d' % min(len(c['steps']), 9), 'leaf:' + (c['prim']['leaf']['leaf'] if 'leaf' in c['prim'] else 'composite')]
+        t = ['final_ztype:' + c['final'][1], 'len:%d' % min(len(c['steps']), 9), 'leaf:' + (c['prim']['leaf']['leaf'] if 'leaf' in c['prim'] else 'wrapped' if 'wrapz' in c['prim'] else 'composite')]
         return t
     core.run_cases(rep, cases, impl_call, model_case, oracle, tags_fn=tags, nontrivial_fn=nontrivial, compare_fn=compare)
     rep.samples = [s if not isinstance(s, dict) else {k: v for k, v in s.items() if k != 'const'} for s in rep.samples]
